@@ -840,6 +840,32 @@ func (e *Env) call(x SCall) SVal {
 	case "sameslice":
 		argn(2)
 		return SVal{T: Eq(e.elab(x.Args[0]).T, e.elab(x.Args[1]).T), Typ: tBool}
+	case "streq":
+		// streq(a, b): a == b on strings, written as a function application so that it triggers the
+		// extensionality axiom (equal lengths and equal bytes make equal strings) for this pair
+		argn(2)
+		return SVal{T: App("str_eq", SBool, e.elab(x.Args[0]).T, e.elab(x.Args[1]).T), Typ: tBool}
+	case "strrepl1":
+		// strrepl1(s, a, b): the string s with every byte a replaced by the byte b (what strings.ReplaceAll
+		// computes for a one-byte pattern and a one-byte replacement), as a function of its arguments
+		argn(3)
+		return SVal{T: App("str_repl1", SStr, e.elab(x.Args[0]).T, e.elab(x.Args[1]).T, e.elab(x.Args[2]).T), Typ: tString}
+	case "strof":
+		// strof(s): the conversion string(s) of a byte slice, read in the current heap (the term the code's
+		// conversion produces)
+		argn(1)
+		sv := e.elab(x.Args[0])
+		var sl *types.Slice
+		if sv.Typ != nil {
+			sl, _ = sv.Typ.Underlying().(*types.Slice)
+		}
+		if sl == nil {
+			efail("strof(s): s must be a []uint8")
+		}
+		if b, ok := sl.Elem().Underlying().(*types.Basic); !ok || b.Kind() != types.Uint8 {
+			efail("strof(s): s must be a []uint8")
+		}
+		return SVal{T: App("str_of", SStr, Select(e.cur.H(e.p, e.p.elemHeap(sl.Elem())), SBase(sv.T)), SOff(sv.T), SLen(sv.T)), Typ: tString}
 	case "ghost":
 		argn(1)
 		id, ok := x.Args[0].(SIdent)
